@@ -749,6 +749,8 @@ def run(prog, rep):
     # flags and close the handle on every path (also when the block is left by an exception), or later lookups hit a closed handle
     from .c08 import handle_discipline
     rep.attempt(handle_discipline, ct, rep)
+    from .c08 import table_effects_need_writable
+    rep.attempt(table_effects_need_writable, ct, rep)
     rep.attempt(removal_selects_type, ct, rep)
     # a setter on a present type removes, then adds: the add must not refuse a comment / label that the field can hold (the text
     # primitive refuses exactly what does not fit), or the type silently disappears
